@@ -150,6 +150,7 @@ func cmdCheck(args []string) int {
 	merge(ctx.runPkgState())
 	merge(ctx.runFieldInvScan())
 	merge(ctx.runRxp())
+	merge(ctx.runRxpWithin())
 	for _, extra := range extraJobs[*prop] {
 		merge(extra(ctx))
 	}
